@@ -195,6 +195,9 @@ func oracleC12(p *sim.Plan, out *sim.Outcome) []sim.Violation {
 				if lo < 1 {
 					lo = 1
 				}
+				if hi < 1 {
+					hi = 1 // delivered in the last instant of its lifetime: the interval cannot be 0 ("never absent")
+				}
 				if got > E {
 					vs = append(vs, viol("C12", "remaining", "more-than-original", "subscriber %s: %q forwarded with message expiry %d > original %d", id, pl, got, E))
 				} else if got < lo || got > hi {
